@@ -878,7 +878,7 @@ _MODULE_CODE: dict = {}
 def run(spec: dict, decider: Decider, keep_events: bool = False) -> RunResult:
     rr = RunResult()
     fresh_modules()
-    sim = Sim(decider, step_cap=60_000, keep_events=keep_events)
+    sim = Sim(decider, step_cap=30_000, keep_events=keep_events)
     root = _SCRATCH["dir"] or os.getcwd()
     _SCRATCH["n"] += 1
     qdir = os.path.join(root, "q")
